@@ -124,6 +124,9 @@ func itemTokens(bi *kmip.RequestBatchItem) (int, int) {
 	if pl, ok := bi.RequestPayload.(*payloads.ActivateRequestPayload); ok {
 		return parseMsgID(pl.UniqueIdentifier)
 	}
+	if _, ok := bi.RequestPayload.(*payloads.DiscoverVersionsRequestPayload); ok { // "srvitem-discover": the tokens travel in the item's id
+		return parseMsgID(string(bi.UniqueBatchItemID))
+	}
 	return -1, -1
 }
 func respMsg(marker string) *kmip.ResponseMessage {
@@ -165,11 +168,7 @@ func resOfMsg(resp *kmip.ResponseMessage, err error) (string, int) {
 	if resp == nil || len(resp.BatchItem) == 0 {
 		return "ok", -1
 	}
-	bi := resp.BatchItem[0]
-	if bi.ResultStatus != kmip.ResultStatusSuccess {
-		return "err", errMarker(bi.ResultMessage)
-	}
-	return "ok", markerOf(bi.ResponsePayload)
+	return resOfItem(&resp.BatchItem[0], nil)
 }
 func resOfItem(bi *kmip.ResponseBatchItem, err error) (string, int) {
 	if err != nil {
@@ -180,6 +179,14 @@ func resOfItem(bi *kmip.ResponseBatchItem, err error) (string, int) {
 	}
 	if bi.ResultStatus != kmip.ResultStatusSuccess {
 		return "err", errMarker(bi.ResultMessage)
+	}
+	_, isDisc := bi.ResponsePayload.(*payloads.DiscoverVersionsResponsePayload)
+	if _, ok := bi.ResponsePayload.(*payloads.DiscoverVersionsRequestPayload); ok || isDisc { // (the executor answers with the request type: same layout)
+		// the answer of the executor's built-in Discover Versions: a result of the core, computed from the item whose id it echoes
+		if _, m := parseMsgID(string(bi.UniqueBatchItemID)); m >= 0 {
+			return "ok", -m
+		}
+		return "ok", -1
 	}
 	return "ok", markerOf(bi.ResponsePayload)
 }
@@ -251,6 +258,10 @@ func ownResp(_ *kmip.RequestMessage, s int) *kmip.ResponseMessage {
 }
 func replaceItem(bi *kmip.RequestBatchItem, u, s int) *kmip.RequestBatchItem {
 	n := *bi
+	if _, ok := bi.RequestPayload.(*payloads.DiscoverVersionsRequestPayload); ok {
+		n.UniqueBatchItemID = []byte(msgID(u, s))
+		return &n
+	}
 	n.RequestPayload = &payloads.ActivateRequestPayload{UniqueIdentifier: msgID(u, s)}
 	return &n
 }
@@ -373,6 +384,7 @@ type srvSys struct {
 	stop     bool
 	critical bool
 	upgrade  bool
+	discover bool
 }
 
 // reqMsgStop: the request of the "srvmsg-stop" chain: the core of a message chain is the whole batch execution, and every
@@ -490,6 +502,11 @@ func (s *srvSys) run(u int) (k string, f int) {
 	if s.stop {
 		msg = reqMsgStop(u, 0)
 	}
+	if s.discover {
+		m := kmip.NewRequestMessage(kmip.V1_4, &payloads.DiscoverVersionsRequestPayload{})
+		m.BatchItem[0].UniqueBatchItemID = []byte(msgID(u, 0))
+		msg = &m
+	}
 	if s.upgrade {
 		msg.Header.ProtocolVersion = kmip.V1_2
 	}
@@ -524,6 +541,10 @@ func build(rec *recorder, kind string, chain []string) (system, error) {
 		sys := newSrvSys(rec, chain, true).(*srvSys)
 		sys.critical = true
 		return sys, nil
+	case "srvitem-discover":
+		sys := newSrvSys(rec, chain, true).(*srvSys)
+		sys.discover = true
+		return sys, nil
 	case "srvmsg-stop":
 		sys := newSrvSys(rec, chain, false).(*srvSys)
 		sys.stop = true
@@ -544,7 +565,7 @@ type kindVariant struct {
 // every chain runs on the three real chains; chains that derive contexts additionally run on the two
 // server chains with derived contexts that are already cancelled
 func kindVariants(chain []string) []kindVariant {
-	kv := []kindVariant{{"client", false}, {"srvmsg", false}, {"srvitem", false}, {"srvmsg-late", false}, {"srvitem-late", false}, {"srvmsg-stop", false}, {"client-builtin", false}, {"srvitem-critical", false}, {"srvmsg-upgrade", false}, {"client-drop", false}}
+	kv := []kindVariant{{"client", false}, {"srvmsg", false}, {"srvitem", false}, {"srvmsg-late", false}, {"srvitem-late", false}, {"srvmsg-stop", false}, {"client-builtin", false}, {"srvitem-critical", false}, {"srvmsg-upgrade", false}, {"client-drop", false}, {"srvitem-discover", false}}
 	for _, p := range chain {
 		if p == "newctx" || p == "thrice" {
 			return append(kv, kindVariant{"srvmsg", true}, kindVariant{"srvitem", true})
@@ -566,6 +587,19 @@ func criticalView(exp []Event) []Event {
 			e.K, e.F = "err", -1
 		}
 		res = append(res, e)
+	}
+	return res
+}
+
+// discoverView: what Chain.tla's history looks like when the item is a Discover Versions the application has no route for. The
+// executor answers it itself: that built-in answer is the core of the item chain like any routed handler - the stages run around it
+// exactly as the specification says - only the harness's core handler is not what is invoked, so no "core" event is recorded.
+func discoverView(exp []Event) []Event {
+	var res []Event
+	for _, e := range exp {
+		if e.E != "core" {
+			res = append(res, e)
+		}
 	}
 	return res
 }
@@ -596,6 +630,9 @@ func eventsEqual(kind string, got, exp []Event) bool {
 	}
 	if kind == "srvmsg-upgrade" {
 		exp = upgradeView(exp)
+	}
+	if kind == "srvitem-discover" {
+		exp = discoverView(exp)
 	}
 	if len(got) != len(exp) {
 		return false
